@@ -19,6 +19,7 @@ Producer: harness/layers_common.py.
   modcell LID C ufunc|fn OP V                 legacy modify_cell (V typed: the result is cast back into the array)
   fromdata NAME H                             PropertyLayer.from_data(NAME, <array held as H>): a free-standing layer (copy)
   grab H LID | hget H C | hset H C V | hdump H
+  grabmask H                                  legacy: H = grid.empty_mask (the live array)
   dump LID | dumpn NAME | lsel LID COND | agg LID sum|max|min
   gset NAME                                   grid.NAME = <a plain object>  (new: HasPropertyLayers.__setattr__)
   place A C | move A C | remove A | empties
@@ -198,6 +199,7 @@ def parseOp (dims : List Nat) (impl : Impl) (geo : Geo) : List String → Option
       | none => do pure (.modifyCell (← l.toNat?) (← parseCoord c) (← parseOper kind op v))
   | ["fromdata", n, h] => do pure (.fromData n (← h.toNat?))
   | ["grab", h, l] => do pure (.grab (← h.toNat?) (← l.toNat?))
+  | ["grabmask", h] => do pure (.grabMask (← h.toNat?))
   | ["hget", h, c] => do pure (.hget (← h.toNat?) (← parseCoord c))
   | ["hset", h, c, v] => do pure (.hset (← h.toNat?) (← parseCoord c) (← parseWVal v))
   | ["hdump", h] => do pure (.hdump (← h.toNat?))
